@@ -776,6 +776,158 @@ def oracle_imputation(rng, n, tier, res, problems):
             problems.append((f"{case['debiaser']} (missing-value oracle): {detail}", case))  # what = "oracle/<name>": an ordinary violation
 
 
+# ------------------------------------------------------------------ round 6: the public entry point x the representation of the time axis
+# Quantifier covered: "for all series WITH DATES … all debiasers" — the statement is about debiasing, not about one call form or one
+# date type.  The cases above reach the code only through `apply_location(obs, cm_hist, cm_future, t, t, t)` with object arrays of
+# `datetime.date`; here the same dated series (same generator: `gen_case` / `build`) are handed over
+#   * through the public 3-d entry point `Debiaser.apply` (serial, failsafe, parallel; DeltaChange overrides it) on a small grid whose
+#     locations hold different data on the same time axes, and through `apply_location` with the time arrays as keywords;
+#   * with the time axes in every representation the library's calendar helpers accept (`utils.day_of_year / month / year`:
+#     `np.array(x)`, datetime64 of any unit -> [D] -> object): object arrays of `datetime.date`, `datetime.datetime` (with a time of
+#     day), `pandas.Timestamp`; numpy datetime64 in the units D, h, s, ms, us, ns (sub-daily units with a time of day);
+#     `pandas.DatetimeIndex` — the three series not necessarily in the same representation.
+# The clause judged is the one of `run_case`: ordered storage vs each series permuted together with ITS time array, per location and
+# per date, same tolerances and guards (tie-free data for rank-based methods, same numpy seed for randomised configurations).
+TIME_REPRS = ["date", "datetime", "M8[D]", "M8[h]", "M8[s]", "M8[ms]", "M8[us]", "M8[ns]", "pandas.DatetimeIndex", "pandas.Timestamp"]
+ENTRY_FORMS = ["apply", "apply-failsafe", "apply", "apply_location-kw", "apply", "apply-parallel", "apply", "apply_location-kw"]
+ENTRY_NAMES = BASE8 + ["CDFt-years3/1", "QuantileDeltaMapping-years3/1", "ISIMIP-months", "ISIMIP-pr-seeded", "ISIMIP-rsds", "ISIMIP-trend",
+                       "ScaledDistributionMapping-pr", "QuantileMapping-nonparametric", "DeltaChange-multiplicative", "CDFt-noyears"]
+
+
+def time_axis(dates, kind, seed):
+    """the calendar days `dates` (object array of datetime.date) in another representation; representations with a sub-daily
+    resolution carry a time of day (whole hours, per time step) — the calendar day, hence the dated value, is the same"""
+    n = dates.size
+    hours = np.random.RandomState(seed % (2**31)).randint(0, 24, n)
+    if kind == "date":
+        return dates
+    if kind == "datetime":
+        return np.array([datetime.datetime(d.year, d.month, d.day, int(hh)) for d, hh in zip(dates, hours)], dtype=object)
+    d64 = np.array([d.isoformat() for d in dates], dtype="datetime64[D]")
+    if kind == "M8[D]":
+        return d64
+    if kind.startswith("M8["):
+        return (d64.astype("datetime64[h]") + hours.astype("timedelta64[h]")).astype("datetime64" + kind[2:])
+    import pandas as pd
+
+    if kind == "pandas.DatetimeIndex":
+        return pd.DatetimeIndex(d64.astype("datetime64[h]") + hours.astype("timedelta64[h]"))
+    if kind == "pandas.Timestamp":
+        return np.array([pd.Timestamp(year=d.year, month=d.month, day=d.day, hour=int(hh)) for d, hh in zip(dates, hours)], dtype=object)
+    raise KeyError(kind)
+
+
+def gen_entry_case(rng, name, k, off, tier):
+    case = gen_case(rng, name, tier)
+    out = 0 if name.startswith("DeltaChange") else 2  # the series the output is aligned with
+    omit = case.get("omit") or ""
+    if "OHF"[out] not in omit and case["perms"][out] == "identity":
+        case["perms"][out] = rng.choice(["full", "blockswap", "rotate", "reverse"])
+    r0 = TIME_REPRS[(k + off) % len(TIME_REPRS)]  # every representation on the output series within 10 consecutive cases
+    reprs = [r0, r0, r0] if rng.random() < 0.5 else [rng.choice(TIME_REPRS) for _ in range(3)]
+    reprs[out] = r0
+    form = ENTRY_FORMS[(k + off // len(TIME_REPRS)) % len(ENTRY_FORMS)]
+    grid = [1, 1] if form == "apply_location-kw" else rng.choice([[1, 1], [2, 1], [1, 2], [2, 1], [1, 2], [2, 2]])
+    case.update(what="oracle-entry/" + name, entry={"form": form, "grid": grid, "time_repr": reprs, "tod_seed": rng.randint(0, 2**31 - 1)})
+    return case
+
+
+def run_entry_case(case):
+    """returns (status, detail) like `run_case`; the call goes through `case["entry"]["form"]` with the time axes in
+    `case["entry"]["time_repr"]`; location l of the grid holds the series of `build` rolled by 3*l positions (same multiset:
+    physical range and tie-freeness are kept, the values at a date differ between locations)"""
+    mk, seeded, (o, h, f, dO, dH, dF), (pO, pH, pF) = build(case)
+    if rank_based(case["debiaser"]) and any(np.unique(x).size != x.size for x in (o, h, f)):
+        return "skip", "ties in the generated data"
+    e = case["entry"]
+    form, (nx, ny) = e["form"], e["grid"]
+    if form == "apply-parallel" and seeded:  # worker processes draw from copies of the global generator in an unspecified assignment
+        form = "apply"
+    omit = case.get("omit") or ""
+    opts = case_opts(case["debiaser"])
+    dc = case["debiaser"].startswith("DeltaChange")
+
+    def grid(x):
+        return np.stack([np.roll(x, 3 * l) for l in range(nx * ny)], axis=1).reshape(x.size, nx, ny)
+
+    O, H, F = grid(o), grid(h), grid(f)
+    tO, tH, tF = (time_axis(d, r, e["tod_seed"] + j) for j, (d, r) in enumerate(zip((dO, dH, dF), e["time_repr"])))
+
+    def run(oo, hh, ff, t1, t2, t3):
+        kw = {k: v for k, v, s in (("time_obs", t1, "O"), ("time_cm_hist", t2, "H"), ("time_cm_future", t3, "F")) if s not in omit}
+        if seeded:
+            np.random.seed(case["np_seed"] % (2**31))
+        with warnings.catch_warnings():
+            warnings.simplefilter("ignore")
+            try:
+                deb = mk()
+                if form == "apply_location-kw":
+                    return "ok", np.asarray(deb.apply_location(oo[:, 0, 0].copy(), hh[:, 0, 0].copy(), ff[:, 0, 0].copy(), **kw))[:, None, None]
+                return "ok", np.asarray(deb.apply(oo, hh, ff, progressbar=False, failsafe=(form == "apply-failsafe"),
+                                                  parallel=(form == "apply-parallel"), nr_processes=2, **kw))
+            except Exception as ex:  # noqa: BLE001
+                return "error", type(ex).__name__ + ": " + str(ex)[:80]
+
+    k1, a = run(O, H, F, tO, tH, tF)
+    k2, b = run(O[pO], H[pH], F[pF], tO[pO], tH[pH], tF[pF])
+    how = f"entry point {form}, grid {nx}x{ny}, time axes obs/cm_hist/cm_future as {e['time_repr']}"
+    if k1 == "error" or k2 == "error":
+        if k1 == k2 and a.split(":")[0] == b.split(":")[0]:
+            return "skip", f"both runs raise {a.split(':')[0]}"
+        return "violation", f"{how}: ordered input: {k1} {a if k1 == 'error' else ''}; shuffled input: {k2} {b if k2 == 'error' else ''}"
+    pOut = pO if dc else pF
+    dOut, xOut = (dO, O) if dc else (dF, F)
+    if a.shape != (pOut.size, nx, ny) or b.shape != a.shape:
+        return "violation", f"{how}: result shapes {a.shape} / {b.shape}, expected ({pOut.size}, {nx}, {ny})"
+    scale = float(max(np.abs(o).max(), np.abs(h).max(), np.abs(f).max()))
+    want = a[pOut]
+    if data_kind(case["debiaser"]) in ("tas", "tas-trend"):
+        tol = np.full(want.shape, opts["rtol"] * (1 + scale))
+    else:
+        tol = opts["rtol"] * np.maximum(np.abs(np.nan_to_num(want)), scale)
+    bad = ~((np.abs(b - want) <= tol) | (np.isnan(b) & np.isnan(want)))
+    if opts["mask"] == "wet":
+        bad &= xOut[pOut] >= opts["thr"]
+    if bad.any():
+        i, ix, iy = (int(v) for v in np.argwhere(bad)[0])
+        extra = "".join(f"; {k}={case[k]}" for k in ("outliers", "no366", "equal", "omit", "rounded") if case.get(k))
+        return "violation", (f"{int(bad.sum())} of {bad.size} debiased values changed when the dated series were re-ordered together with their time arrays "
+                             f"({how}; perms obs/cm_hist/cm_future = {case['perms']}{extra}); first: location ({ix}, {iy}) {dOut[pOut][i]} "
+                             f"{want[i, ix, iy]!r} -> {b[i, ix, iy]!r} (tol {tol[i, ix, iy]:.2e})")
+    dev = np.abs(b - want) / (tol / opts["rtol"])
+    return "ok", float(np.nanmax(dev)) if dev.size and not np.all(np.isnan(dev)) else 0.0
+
+
+def oracle_entry(reps, tier, res, problems):
+    rng = random.Random(C.seed() * 15485863 + 60606)  # an own stream: the cases of the earlier rounds do not shift
+    off = rng.randrange(len(TIME_REPRS) * len(ENTRY_FORMS))
+    hist = res.extra.setdefault("entry_oracle", {})
+    worst = res.extra.setdefault("max_rel_deviation", {})
+    k = 0
+    for _ in range(reps):
+        for name in ENTRY_NAMES:
+            case = gen_entry_case(rng, name, k, off, tier)
+            k += 1
+            try:
+                status, detail = run_entry_case(case)
+            except Exception as ex:  # noqa: BLE001  (building the time axes / the grid: not the code under test, but never crash the check)
+                status, detail = "skip", f"harness: {type(ex).__name__}: {str(ex)[:80]}"
+            e = case["entry"]
+            for key in (f"form:{e['form']}:{status}", f"time:{e['time_repr'][0 if name.startswith('DeltaChange') else 2]}:{status}"):
+                hist[key] = hist.get(key, 0) + 1
+            res.count(("entry", name, e["form"], tuple(e["time_repr"]), tuple(e["grid"]), tuple(case["perms"]), case["L"], case["S"],
+                       case["spans"]["F"]["n"]), status == "ok",
+                      sample={"debiaser": name, "perms": case["perms"], **e} if k <= 2 else None)
+            if status == "violation":
+                problems.append((f"{name}: {detail}", case))
+            elif status == "ok":
+                worst["entry/" + name] = max(worst.get("entry/" + name, 0.0), detail)
+            else:
+                res.extra["oracle_skipped"] = res.extra.get("oracle_skipped", 0) + 1
+                sk = res.extra.setdefault("oracle_skip_reasons", {})
+                sk[f"entry/{name}: {detail}"] = sk.get(f"entry/{name}: {detail}", 0) + 1
+
+
 # ------------------------------------------------------------------ the check
 def run(tier, res, force_search=False):
     with warnings.catch_warnings():
@@ -789,7 +941,9 @@ def _run(tier, res, force_search=False):
                 "dated series: full | blockswap | rotate | reverse | identity, equal-length groups, injected extreme outliers, spans without day 366, "
                 "large samples (> 4000 / 10001 / 20000 values), data seed) from one PRNG (VERIF_SEED); configurations = the eight debiasers (tas), CDFt/QDM year "
                 "windows, every ISIMIP variable in both modes, the precipitation models, window-free mode; non-trivial when at least one series is "
-                "really re-ordered and both runs succeed; distinct = distinct (configuration, L, S, permutation kinds, length)")
+                "really re-ordered and both runs succeed; distinct = distinct (configuration, L, S, permutation kinds, length); entry cases = the same dated series through "
+                "Debiaser.apply (grid 1x1 … 2x2; serial / failsafe / parallel) or apply_location with keyword time arrays x time axes as "
+                "datetime.date / datetime.datetime / pandas.Timestamp objects, datetime64[D|h|s|ms|us|ns], pandas.DatetimeIndex")
     res.trusted = C.BASE_TRUSTED + [
         "calendar arithmetic (dates -> day of year / month / year) by Python; the model receives integer arrays",
         "numpy fancy-index / boolean-mask semantics as modelled in Model.Skeleton (take, maskSelect, pairsFor, applyWrites)",
@@ -894,6 +1048,10 @@ def _run(tier, res, force_search=False):
     # recorded finding F21, anything else is an ordinary violation
     oracle_imputation(rng, (3 if tier == "quick" else 12) * boost, tier, res, problems)
 
+    # round 6: the public entry point `apply` (grid; serial / failsafe / parallel) and `apply_location` with keyword time arrays, the time
+    # axes as datetime / datetime64 (D … ns) / pandas objects — own PRNG stream
+    oracle_entry((2 if tier == "quick" else 10) * boost, tier, res, problems)
+
     # ---- verdict
     seen = set()
     for p, case in problems:
@@ -924,6 +1082,10 @@ def replay(data):
         if status == "known-step2" and want == IMPUTE_WHAT:
             print("REPRODUCED: " + detail[:300])
         return 1 if status in ("violation", "known-step2") else 0
+    if case and "entry" in case and "debiaser" in case:  # entry point x time-axis representation
+        status, detail = run_entry_case(case)
+        print(f"replay C06 {case['debiaser']} entry={case['entry']} L={case['L']} S={case['S']} perms={case['perms']}: {status} {detail}")
+        return 1 if status == "violation" else 0
     if not case or "debiaser" not in case:
         print("replay: no oracle case in this file (skeleton / tie-only violations are re-run by ./check C06 with VERIF_SEED=%s)" % (case or {}).get("verif_seed", "?"))
         return 2
